@@ -16,6 +16,7 @@ BASES: List[Tuple[str, A.Atom]] = [
     ("txn RekeyTo", ["txn RekeyTo", Z, "=="]),
     ("txn RekeyTo", [f"addr {A.LIT1}", "txn RekeyTo", "=="]),
     ("txn Fee", ["txn Fee", "int 1000", "<="]),
+    ("txn Fee", ["int 1000", "txn Fee", ">="]),
     ("txn TypeEnum", ["txn TypeEnum", "int pay", "=="]),
     ("txn OnCompletion", ["txn OnCompletion", "int UpdateApplication", "!="]),
     ("txn Sender", ["txn Sender", f"addr {A.LIT1}", "=="]),
@@ -76,6 +77,7 @@ def items(tier: str) -> List[Any]:
     ]
     if tier == "quick":
         small = small[:5]
+    small.append(["txn GroupIndex", "int 1", "=="])
     l2 = 2 if tier == "quick" else 3
     for s in spaces.layered(full, small, tier, l2_size=l2, max_subs=1, fall_off=False):
         if s not in seen:
